@@ -14,6 +14,11 @@ package traversal
 //@   assigns nothing
 //@   ensures err == nil ==> np != nil
 
+// wfprog: what Progress.init establishes for a walk (configuration present and usable).
+//@ pred wfprog(prog Progress) = prog.Cfg != nil && prog.Cfg.LinkTargetNodePrototypeChooser != nil
+//@   && prog.Cfg.LinkSystem.DecoderChooser != nil && prog.Cfg.LinkSystem.HasherChooser != nil
+//@   && (prog.Cfg.LinkVisitOnlyOnce ==> prog.SeenLinks != nil)
+
 // ---- budgets: check-and-decrement, exactly once per step ----
 
 //@ func (Progress).checkNodeBudget() (err)
@@ -47,9 +52,65 @@ package traversal
 // ---- loadLink: exactly one link-budget check, before the load ----
 
 //@ func (Progress).loadLink(lnk, v, parent) (r, err)
-//@   requires prog.Cfg != nil && prog.Cfg.LinkTargetNodePrototypeChooser != nil && lnk != nil
-//@   requires prog.Cfg.LinkSystem.DecoderChooser != nil && prog.Cfg.LinkSystem.HasherChooser != nil
+//@   requires wfprog(prog) && lnk != nil
+//@   assigns foreign, prog.Budget.NodeBudget, prog.Budget.LinkBudget, map(prog.SeenLinks), ghostall("io.Reader.pos"), ghostall("io.Writer.fed"), ghostall("io.Writer.fedof"), ghostall("linking.BlockWriteCommitter.calls")
 //@   before LinkTargetNodePrototypeChooser assert[C15] prog.Budget != nil ==> old(prog.Budget.LinkBudget) > 0 && prog.Budget.LinkBudget == old(prog.Budget.LinkBudget) - 1
 //@   before Load assert[C15] prog.Budget != nil ==> old(prog.Budget.LinkBudget) > 0 && prog.Budget.LinkBudget == old(prog.Budget.LinkBudget) - 1
 //@   before Load assert[C07] carg2 == lnk
+//@   ensures[C07] err == nil ==> r != nil
 //@   ensures[C15] prog.Budget != nil && old(prog.Budget.LinkBudget) <= 0 ==> r == nil && iserr(err, "*ErrBudgetExceeded") && prog.Budget.LinkBudget == old(prog.Budget.LinkBudget)
+
+// ---- the walk step (C15: budget exactly once before the visit; C14: the path handed down is the
+//      parent's path extended by exactly the child's segment; C07: the child walk gets the selector
+//      returned by Explore) ----
+
+// A reifiable selector explores the empty segment to its (non-nil) next selector.
+//@ func (Progress).reify(n, s) (rn, rs, err)
+//@   requires wfprog(prog) && s != nil
+//@   assigns nothing
+//@   after Explore assume result1 != nil || result0 != nil
+//@   ensures[C07] err == nil && rn != nil ==> rs != nil
+//@   ensures[C07] err != nil ==> rn == nil
+
+//@ func (Progress).walkBlock(n, s, visitFn) (err)
+//@   requires wfprog(prog) && n != nil && s != nil && visitFn != nil
+//@   assigns foreign, prog.Budget.NodeBudget, prog.Budget.LinkBudget, map(prog.SeenLinks), ghostall("io.Reader.pos"), ghostall("io.Writer.fed"), ghostall("io.Writer.fedof"), ghostall("linking.BlockWriteCommitter.calls")
+
+//@ func (Progress).walkAdv(ph, n, s, visitFn) (err)
+//@   requires wfprog(prog) && n != nil && s != nil && visitFn != nil
+//@   assigns foreign, prog.Budget.NodeBudget, prog.Budget.LinkBudget, map(prog.SeenLinks), ghostall("io.Reader.pos"), ghostall("io.Writer.fed"), ghostall("io.Writer.fedof"), ghostall("linking.BlockWriteCommitter.calls")
+//@   requires ph == phasePreload ==> prog.Cfg.Preloader != nil
+//@   before visit assert[C15] prog.Budget != nil ==> old(prog.Budget.NodeBudget) > 0 && prog.Budget.NodeBudget == old(prog.Budget.NodeBudget) - 1
+//@   before explore assert[C15] !haveStartAtPath || reachedStartAtPath || prog.PastStartAtPath || len(prog.Path.segments) >= len(prog.Cfg.StartAtPath.segments)
+//@   before explore assert[C07] carg2 == s && carg3 == n && carg5 == v && carg6 == ps
+//@   ensures[C15] prog.Budget != nil && old(prog.Budget.NodeBudget) <= 0 ==> iserr(err, "*ErrBudgetExceeded")
+//@   loop 0 assigns foreign, prog.PastStartAtPath, reachedStartAtPath
+//@   loop 0 invariant prog.Cfg == old(prog.Cfg) && prog.Path == old(prog.Path) && prog.Budget == old(prog.Budget) && prog.SeenLinks == old(prog.SeenLinks) && itr != nil
+//@   loop 1 assigns foreign, prog.PastStartAtPath, reachedStartAtPath
+//@   loop 1 invariant prog.Cfg == old(prog.Cfg) && prog.Path == old(prog.Path) && prog.Budget == old(prog.Budget) && prog.SeenLinks == old(prog.SeenLinks) && 0 - 1 <= rangeindex && rangeindex < len(attn)
+
+//@ func (Progress).explore(ph, s, n, visitFn, v, ps) (err)
+//@   requires wfprog(prog) && s != nil && n != nil && v != nil && visitFn != nil
+//@   assigns foreign, prog.Budget.NodeBudget, prog.Budget.LinkBudget, map(prog.SeenLinks), ghostall("io.Reader.pos"), ghostall("io.Writer.fed"), ghostall("io.Writer.fedof"), ghostall("linking.BlockWriteCommitter.calls")
+//@   requires ph == phasePreload ==> prog.Cfg.Preloader != nil
+//@   before walkAdv assert[C14,C07] len(carg0.Path.segments) == len(prog.Path.segments) + 1 && carg0.Path.segments[len(prog.Path.segments)] == ps
+//@   before walkAdv assert[C14,C07] forall i mathint :: 0 <= i && i < len(prog.Path.segments) ==> carg0.Path.segments[i] == prog.Path.segments[i]
+//@   before walkAdv assert[C07] carg2 == v && carg3 == sNext && sNext != nil && carg1 == ph
+//@   before loadLink assert[C15] prog.Cfg.LinkVisitOnlyOnce ==> !seen
+//@   before loadLink assert[C14,C07] carg1 == lnk && len(carg0.Path.segments) == len(prog.Path.segments) + 1 && carg0.Path.segments[len(prog.Path.segments)] == ps
+//@   before walkBlock assert[C07] carg2 == sNext && len(carg0.Path.segments) == len(prog.Path.segments) + 1
+
+//@ func (Progress).WalkLocal(n, fn) (err)
+//@   requires n != nil && fn != nil
+//@   before fn assert[C15] prog.Budget != nil ==> old(prog.Budget.NodeBudget) > 0 && prog.Budget.NodeBudget == old(prog.Budget.NodeBudget) - 1
+//@   before WalkLocal assert[C14] len(carg0.Path.segments) == len(prog.Path.segments) + 1
+//@   ensures[C15] prog.Budget != nil && old(prog.Budget.NodeBudget) <= 0 ==> iserr(err, "*ErrBudgetExceeded")
+//@   loop 0 assigns foreign, itr.pos
+//@   loop 0 invariant itr != nil
+//@   loop 1 assigns foreign, itr.pos
+//@   loop 1 invariant itr != nil
+
+//@ functype preload.Loader(ctx, lnk)
+//@   assigns foreign
+//@ interface selector.Reifiable.NamedReifier() (r)
+//@   assigns nothing
